@@ -70,6 +70,7 @@ def run(tier):
                 verd.candidate("C02:frames:tail-loop:%s" % v["rule"], "tail-call loop: control skeleton violates '%s' at snapshot %d of %d" % (v["rule"], v["at"], v["n"]), {"program": pp, "verdict": v})
     vlib.log("[C02] FramesTrace: %d tail-call loops with per-iteration snapshots validated" % nfr)
     cov["frames_tail_loops_validated"] = nfr
+    lsem.foot_pass(PROP, progs, verd, stats, cov)      # Frames stage 2 (specs/FramesStep.tla)
     rc = verd.finish()
     cov["known_findings_hit"] = sorted(verd.known_hit)
     cov["shape_space"] = nshapes
@@ -81,6 +82,8 @@ def run(tier):
 
 def replay(path):
     rec = json.load(open(path))
+    if rec["replay"].get("foot"):
+        return lsem.replay_foot(PROP, rec)
     p = rec["replay"]["program"]
     verd = vlib.Verdicts(PROP)
     verd.findings = []
